@@ -686,3 +686,10 @@ class TLSSocket:
 
     def close(self):
         return self._via("close")
+
+    def unwrap(self):
+        """orderly TLS shutdown (ssl.SSLSocket.unwrap): needs a live connection - on a broken one it fails like the real thing"""
+        raw = self.raw
+        if raw.closed or not raw.connected or raw.peer_closed or raw.faulted or raw.fault_kind is not None:
+            raise OSError(errno.ENOTCONN, "TLS shutdown on a broken connection (fake)")
+        return raw
